@@ -664,10 +664,18 @@ def direct_oracle(case, cp):
                 msg = "validate_repo failed: %r" % (q["failed"],)
             elif q["errors"]:
                 msg = "validate_repo yielded %d error item(s)" % q["errors"]
-            elif multiset(got) != multiset(committed):
-                mg, mw = multiset(got), multiset(committed)
-                q["extra"] = [i for i in mg for _ in range(mg[i] - mw.get(i, 0))]
-                q["missing"] = [i for i in mw if mw[i] > mg.get(i, 0)]
+            else:
+                # the validator does not read an id spelled with JSON escapes (C07's known finding
+                # validator-escaped-string): such an object is visited with id None
+                nones = len([i for i in got if i is None])
+                mg, mw = multiset([i for i in got if i is not None]), multiset(committed)
+                extra = [i for i in mg for _ in range(mg[i] - mw.get(i, 0))]
+                missing = [i for i in mw if mw[i] > mg.get(i, 0)]
+                anonymous = [i for i in missing if needs_escape(i)][:nones]
+                missing = [i for i in missing if i not in anonymous]
+                extra += [None] * (nones - len(anonymous))
+                q["extra"], q["missing"] = extra, missing
+            if msg is None and (q.get("extra") or q.get("missing")):
                 msg = "objects visited by validate_repo differ from the reference record: missing %r, extra %r" % (
                     q["missing"], q["extra"])
         elif q["kind"] in ("list_objects", "list_staged"):
@@ -742,7 +750,7 @@ def judge_checkpoint(ctx, case, cp, bits, stats, known_ids):
             slugs = []
             extra, missing = q.get("extra", []), q.get("missing", [])
             if q["msg"] and nolayout and (bits is None or esc) and extra and not missing \
-                    and all(i is not None and needs_escape(i) for i in extra):
+                    and all(i is None or needs_escape(i) for i in extra):
                 slugs.append("id-needs-json-escape")     # purge could not locate the object, the re-creation duplicated the id
             report(q, slugs, True)
         elif q["kind"] == "purge":
